@@ -258,6 +258,10 @@ type delivery struct {
 	module.Delivery
 	// Recipient addresses this delivery object is used for, original values (not modified by RewriteRcpt).
 	recipients []string
+	// Set by BodyNonAtomic if the message body was refused for all recipients of
+	// this delivery object (or never passed to it). Such delivery is aborted
+	// instead of being committed.
+	bodyFailed bool
 }
 
 type msgpipelineDelivery struct {
@@ -451,6 +455,7 @@ func (sc statusCollector) SetStatus(rcptTo string, err error) {
 func (dd *msgpipelineDelivery) BodyNonAtomic(ctx context.Context, c module.StatusCollector, header textproto.Header, body buffer.Buffer) {
 	setStatusAll := func(err error) {
 		for _, delivery := range dd.deliveries {
+			delivery.bodyFailed = true
 			for _, rcpt := range delivery.recipients {
 				c.SetStatus(rcpt, err)
 			}
@@ -505,6 +510,7 @@ func (dd *msgpipelineDelivery) BodyNonAtomic(ctx context.Context, c module.Statu
 		}
 
 		if err := delivery.Body(ctx, header, body); err != nil {
+			delivery.bodyFailed = true
 			for _, rcpt := range delivery.recipients {
 				c.SetStatus(rcpt, err)
 			}
@@ -517,9 +523,10 @@ func (dd msgpipelineDelivery) Commit(ctx context.Context) error {
 
 	var commitErr error
 	for _, delivery := range dd.deliveries {
-		if commitErr != nil {
+		if commitErr != nil || delivery.bodyFailed {
 			// No point in Committing remaining deliveries, everything is broken already.
-			// They still have to be closed, though.
+			// They still have to be closed, though. Same for deliveries that
+			// have no message body to commit (see BodyNonAtomic).
 			if err := delivery.Abort(ctx); err != nil {
 				dd.log.Debugf("delivery.Abort failure, Delivery object = %T: %v", delivery, err)
 			}
